@@ -32,6 +32,7 @@ import (
 	"strconv"
 	"strings"
 	"sync"
+	"sync/atomic"
 	"time"
 
 	"github.com/gorilla/websocket"
@@ -62,6 +63,7 @@ type Scenario struct {
 	Fault   string `json:"fault"`    // none | version | query | row | scan
 	FaultAt int    `json:"fault_at"` // 1-based index of the data query that gets the fault
 	Cut     int    `json:"cut"`      // row/scan: number of rows handed over before the failure
+	Pre     []Line `json:"pre,omitempty"` // lines stored before the request is sent
 	Steps   []Step `json:"steps"`
 	GraceMs int    `json:"grace_ms"` // how long the census waits for the goroutines of the request to end
 	Seed    int64  `json:"seed"`
@@ -118,6 +120,21 @@ func (r *rec) add(e Event) {
 	e.At = int64(time.Since(r.t0))
 	r.events = append(r.events, e)
 	r.mu.Unlock()
+}
+
+// addStart records the Start event BEFORE the request is sent and returns a function that completes its upper bound
+func (r *rec) addStart(req string) func() {
+	lo := time.Now().Add(-5 * time.Minute).UnixNano()
+	r.mu.Lock()
+	i := len(r.events)
+	r.events = append(r.events, Event{Ev: "Start", At: int64(time.Since(r.t0)), Req: req, Lo: lo})
+	r.mu.Unlock()
+	return func() {
+		hi := time.Now().Add(-5 * time.Minute).UnixNano()
+		r.mu.Lock()
+		r.events[i].Hi = hi
+		r.mu.Unlock()
+	}
 }
 
 func (r *rec) bad(msg string) {
@@ -380,16 +397,19 @@ func child() int {
 	// ---- the request
 	start = time.Now()
 	r.t0 = start
+	if len(sc.Pre) > 0 {
+		store(sc.Pre)
+	}
 	var con *websocket.Conn
-	frames := 0
+	var frames int64
 	eof := make(chan struct{})
+	badFrame := make(chan struct{}) // closed at the first message that is not a well-formed frame
 	gone := time.Time{}
 	switch sc.Req {
 	case "noupgrade":
-		lo := time.Now().Add(-5 * time.Minute).UnixNano()
+		done := r.addStart(sc.Req)
 		resp, err := http.Get("http" + strings.TrimPrefix(u, "ws"))
-		hi := time.Now().Add(-5 * time.Minute).UnixNano()
-		r.add(Event{Ev: "Start", Req: sc.Req, Lo: lo, Hi: hi})
+		done()
 		if err != nil {
 			r.bad("GET: " + err.Error())
 		} else {
@@ -400,10 +420,9 @@ func child() int {
 		close(eof)
 		gone = time.Now()
 	default:
-		lo := time.Now().Add(-5 * time.Minute).UnixNano()
+		done := r.addStart(sc.Req)
 		c, resp, err := websocket.DefaultDialer.Dial(u, nil)
-		hi := time.Now().Add(-5 * time.Minute).UnixNano()
-		r.add(Event{Ev: "Start", Req: sc.Req, Lo: lo, Hi: hi})
+		done()
 		if err != nil {
 			code, body := 0, ""
 			if resp != nil {
@@ -436,10 +455,13 @@ func child() int {
 						r.add(Event{Ev: "ConnEOF", Text: clip(err.Error(), 120)})
 						return
 					}
-					frames++
+					atomic.AddInt64(&frames, 1)
 					ev := classify(mt, msg, tag, tsOf, streamOf, label)
 					if ev.Kind != "ok" {
 						badSeen++
+						if badSeen == 1 {
+							close(badFrame)
+						}
 						if badSeen > 3 { // a handler spinning on the closed channel floods the client: count, do not record
 							flood++
 							continue
@@ -492,6 +514,7 @@ func child() int {
 			// the spec says the server ends the connection by itself (e.g. after a database error): give it time
 			select {
 			case <-eof:
+			case <-badFrame: // the connection is alive and carries garbage: nothing to wait for
 			case <-time.After(time.Duration(st.Ms) * time.Millisecond):
 				r.add(Event{Ev: "NoEOF"})
 			}
@@ -556,7 +579,7 @@ func child() int {
 	res.Census = stacks
 	res.Unsup = w.Bridge.Unsupported
 	res.StoreErr = w.StoreErr
-	res.Frames = frames
+	res.Frames = int(atomic.LoadInt64(&frames))
 	if len(sqls) > 0 {
 		res.SQLs = sqls[:1]
 	}
